@@ -175,11 +175,13 @@ class ClearEngine(c12.LockEngine):
     a = ginm.Machine()
     a.run({'regs': case['regs'], 'ops': case['ops'][:idx + 1]})
     b = ginm.Machine()
-    for c in regs:
-      try:
-        b.register(c)
-      except Exception:  # pylint: disable=broad-except
-        pass
+    b.case_regs = regs
+    with b.gin.config.interactive_mode():     # a later (interactive) registration of a taken name replaces the earlier one, as in the history
+      for c in regs:
+        try:
+          b.register(c)
+        except Exception:  # pylint: disable=broad-except
+          pass
     surviving = {}
     if not case['ops'][idx][1]:
       for name, v in consts_at_clear:
